@@ -672,8 +672,8 @@ def generate():
         except FileNotFoundError:
             old = None
         if old != text:
-            with open(path, 'w') as f:
-                f.write(text)
+            from .common import atomic_write
+            atomic_write(path, text)
     for ci in range(NCHUNKS):
         put('HeapSafe%d.lean' % ci, '\n'.join([
             '/- GENERATED by translators/heap_ir.py — do not edit. -/',
